@@ -463,7 +463,7 @@ func (api *API) mapDecodeStructFields(
 		if sField.settings.inlined && sField.settings.ts.fieldKey == nil && DeRefPointer(sField.fType).Kind() != reflect.Map {
 			// the map encoder leaves out an inlined struct that is optional and nil (or omitempty and empty) like any
 			// other field: if none of its keys is there, there is nothing to decode
-			if (sField.settings.isOptional || sField.settings.omitEmpty) && !api.hasKeyOfStruct(m, sField.fType) {
+			if (sField.settings.isOptional || sField.settings.omitEmpty) && !api.hasKeyOfMember(m, sField.fType) {
 				continue
 			}
 
@@ -653,35 +653,47 @@ func mapDecodeBytes(mapVal any, ts TypeSettings) ([]byte, error) {
 	return byteSlice, nil
 }
 
-// hasKeyOfStruct returns whether the map holds an entry for at least one field of the given struct type (fields of
-// embedded and of inlined structs included). Types that are not structs (an inlined interface) are not looked into:
-// for them the answer is true.
-func (api *API) hasKeyOfStruct(m map[string]any, structType reflect.Type) bool {
-	structType = DeRefPointer(structType)
-	if structType.Kind() != reflect.Struct || structType == timeType || structType == bigIntPtrType.Elem() {
+// hasKeyOfMember returns whether the map holds an entry that belongs to an inlined member of the given type: for a
+// struct at least one key of its fields (fields of embedded and of inlined structs included) or its type code, for an
+// interface the type code of the implementation. The keys are those that mapEncodeStructFields writes.
+func (api *API) hasKeyOfMember(m map[string]any, memberType reflect.Type) bool {
+	memberType = DeRefPointer(memberType)
+	switch {
+	case memberType.Kind() == reflect.Interface:
+		_, has := m[keyType]
+
+		return has
+	case memberType.Kind() != reflect.Struct || memberType == timeType || memberType == bigIntPtrType.Elem():
 		return true
 	}
 
-	structFields, err := api.getStructFields(structType)
+	structFields, err := api.getStructFields(memberType)
 	if err != nil {
 		return true
 	}
 
 	// the type code of the struct is one of its keys
-	if structTypeSettings, _ := api.typeSettingsRegistry.GetByType(structType); structTypeSettings.ObjectType() != nil {
+	if structTypeSettings, _ := api.typeSettingsRegistry.GetByType(memberType); structTypeSettings.ObjectType() != nil {
 		if _, has := m[keyType]; has {
 			return true
 		}
 	}
 
 	for _, sField := range structFields {
+		fieldType := DeRefPointer(sField.fType)
+
 		switch {
+		case sField.isEmbedded && !sField.settings.inlined:
+			// the fields of an embedded struct are spliced in (a key of the embedded field itself is not used)
+			if fieldType.Kind() != reflect.Struct || api.hasKeyOfMember(m, fieldType) {
+				return true
+			}
 		case sField.settings.ts.fieldKey != nil:
 			if _, has := m[*sField.settings.ts.fieldKey]; has {
 				return true
 			}
-		case sField.isEmbedded || sField.settings.inlined:
-			if DeRefPointer(sField.fType).Kind() != reflect.Struct || api.hasKeyOfStruct(m, sField.fType) {
+		case sField.settings.inlined && fieldType.Kind() != reflect.Map:
+			if api.hasKeyOfMember(m, fieldType) {
 				return true
 			}
 		default:
